@@ -357,6 +357,33 @@ type listenerManager struct {
 	mu              sync.Mutex
 }
 
+// managedStreamListener is a [StreamListener] handed out by the [listenerManager].
+// Closing it takes the manager's lock first, so that the locks are always taken
+// in the order manager -> shared listener, also when closing the last listener
+// makes the shared listener remove itself from the manager.
+type managedStreamListener struct {
+	StreamListener
+	managerMu *sync.Mutex
+}
+
+func (ln *managedStreamListener) Close() error {
+	ln.managerMu.Lock()
+	defer ln.managerMu.Unlock()
+	return ln.StreamListener.Close()
+}
+
+// managedPacketConn is the [net.PacketConn] equivalent of [managedStreamListener].
+type managedPacketConn struct {
+	net.PacketConn
+	managerMu *sync.Mutex
+}
+
+func (pc *managedPacketConn) Close() error {
+	pc.managerMu.Lock()
+	defer pc.managerMu.Unlock()
+	return pc.PacketConn.Close()
+}
+
 // NewListenerManager creates a new [ListenerManger].
 func NewListenerManager() ListenerManager {
 	return &listenerManager{
@@ -374,9 +401,8 @@ func (m *listenerManager) ListenStream(addr string) (StreamListener, error) {
 		streamLn = NewMultiStreamListener(
 			addr,
 			func() error {
-				m.mu.Lock()
+				// Called with m.mu held, see managedStreamListener.Close.
 				delete(m.streamListeners, addr)
-				m.mu.Unlock()
 				return nil
 			},
 		)
@@ -386,7 +412,7 @@ func (m *listenerManager) ListenStream(addr string) (StreamListener, error) {
 	if err != nil {
 		return nil, fmt.Errorf("unable to create stream listener for %s: %v", addr, err)
 	}
-	return ln, nil
+	return &managedStreamListener{StreamListener: ln, managerMu: &m.mu}, nil
 }
 
 func (m *listenerManager) ListenPacket(addr string) (net.PacketConn, error) {
@@ -398,9 +424,8 @@ func (m *listenerManager) ListenPacket(addr string) (net.PacketConn, error) {
 		packetLn = NewMultiPacketListener(
 			addr,
 			func() error {
-				m.mu.Lock()
+				// Called with m.mu held, see managedPacketConn.Close.
 				delete(m.packetListeners, addr)
-				m.mu.Unlock()
 				return nil
 			},
 		)
@@ -411,5 +436,5 @@ func (m *listenerManager) ListenPacket(addr string) (net.PacketConn, error) {
 	if err != nil {
 		return nil, fmt.Errorf("unable to create packet listener for %s: %v", addr, err)
 	}
-	return ln, nil
+	return &managedPacketConn{PacketConn: ln, managerMu: &m.mu}, nil
 }
